@@ -1,9 +1,11 @@
 (** C20 — Qremote target choice: MX order, each address once, never itself.
     Only statements here; proofs live in Proofs/Mx*Proofs.v. *)
-From Coq Require Import List NArith Bool Sorting.Permutation Sorting.Sorted.
+From Coq Require Import List NArith ZArith Bool Sorting.Permutation Sorting.Sorted.
 From Qv Require Import Common.Bytes Gen.GenMx Model.Mx Model.MxRoute Model.MxDns
   Spec.MxSpec Spec.MxRouteSpec Spec.MxDnsSpec
-  Proofs.MxSortProofs Proofs.MxConnProofs Proofs.MxFilterProofs Proofs.MxRouteProofs Proofs.MxDnsProofs.
+  Gen.GenNetio Gen.GenQremote Gen.GenStarttls Model.NetRead Model.TlsClient Model.QrConnect Model.MxConnect Spec.MxConnectSpec
+  Proofs.MxSortProofs Proofs.MxConnProofs Proofs.MxFilterProofs Proofs.MxRouteProofs Proofs.MxDnsProofs
+  Proofs.QrConnectProofs Proofs.MxConnectProofs Proofs.MxSortComplete.
 Import ListNotations.
 
 (** sortmx (with fixes/C20-sortmx-v6first.diff applied): for every non-empty list of MX entries
@@ -26,12 +28,26 @@ Theorem C20_sortmx_stable : forall l p v6,
 Proof. exact sortmx_stable. Qed.
 Print Assumptions C20_sortmx_stable.
 
-(** the boolean checker that is run on the outputs of the C sortmx accepts only lists that
-    satisfy the specification above *)
+(** the boolean checker that is run on the outputs of the C sortmx DECIDES the specification above: it
+    accepts a list exactly when it is a rearrangement of the input that ascends in preference with
+    IPv6-containing entries before IPv4-only ones at equal preference and IPv6 addresses first inside each
+    entry.  So it accepts every order a correct sort may produce, stable or not; that sortmx() yields the
+    STABLE one among them is C20_sortmx_stable for the model and the differential run for the C. *)
 Theorem C20_spec_checker_sound : forall inp out,
   spec_ok_C20_sort inp out = true -> sort_spec inp out.
 Proof. exact spec_ok_sort_sound. Qed.
 Print Assumptions C20_spec_checker_sound.
+
+Theorem C20_spec_checker_complete : forall inp out,
+  spec_ok_C20_sort inp out = true <-> sort_spec inp out.
+Proof. exact spec_ok_sort_iff. Qed.
+Print Assumptions C20_spec_checker_complete.
+
+(** in particular no false alarm on what sortmx() returns *)
+Theorem C20_spec_checker_accepts_sortmx : forall l,
+  l <> [] -> Forall nonempty l -> exists out, sortmx l = Ok out /\ spec_ok_C20_sort l out = true.
+Proof. exact checker_accepts_sortmx. Qed.
+Print Assumptions C20_spec_checker_accepts_sortmx.
 
 (** tryconn, called any number of times (connect_mx calls it again after a failed greeting or
     EHLO) on a list on which nothing has been tried, for every sequence of connect() outcomes:
@@ -139,6 +155,83 @@ Theorem C20_main : forall cfg tab flag recs (remhost : bytes) gia ifs cs0 oracle
             /\ main_ok cfg tab flag recs remhost gia ifs oracle n r.
 Proof. exact qremote_main_correct. Qed.
 Print Assumptions C20_main.
+
+(* ---------------------------------------------------------------------------------------------
+   The last clause: connect_mx() over the real tryconn() (Model/MxConnect.v = QrConnect's transcription
+   of connect_mx() — greeting, EHLO/HELO, STARTTLS, QUIT paths at byte level — with its tryconn oracle
+   replaced by Model/Mx.v's tryconn). *)
+
+(** composition: on the list getmxlist/sortmx hand over, with a scripted server for every connection that
+    comes about, the run of connect_mx() IS QrConnect's run on the servers of exactly those candidates
+    whose connect() succeeds, in list order; connect() is called for an initial segment of the candidates
+    (each at most once, in sortmx order: a refused connection, a failed greeting, EHLO/HELO or STARTTLS
+    step all lead to the NEXT candidate); and the loop ends with -ENOENT only after the last one. *)
+Theorem C20_connect_compose : forall fe fd all l cs0 oracle servers k s,
+  Forall fresh l ->
+  length (conn_ids (flat_targets l) oracle) <= length servers ->
+  exists n,
+    connect_mx_c (S (S (total_addrs l))) fe fd all k (mkst l cs0 oracle) servers [] s
+    = (connect_mx_q fe fd all k (reached servers (conn_ids (flat_targets l) oracle)) s,
+       map att_of (firstn n (flat_targets l)))
+    /\ (forall s', connect_mx_q fe fd all k (reached servers (conn_ids (flat_targets l) oracle)) s = Ret None s'
+                   -> n = length (flat_targets l)).
+Proof. exact connect_compose. Qed.
+Print Assumptions C20_connect_compose.
+
+(** each candidate at most once, in order, whatever the servers do *)
+Theorem C20_connect_once : forall fe fd k,
+  pre_connect k ->
+  exists n, snd (connect_phase_c fe fd k) = map att_of (firstn n (flat_targets (m_list k))).
+Proof. exact connect_once. Qed.
+Print Assumptions C20_connect_once.
+
+(** "Z4.4.2 can't connect to any server" (connect_mx() returning -ENOENT) only after every candidate was tried *)
+Theorem C20_connect_noent_after_all : forall fe fd k s',
+  pre_connect k -> fst (loop_of fe fd k) = Ret None s' -> all_tried k (snd (loop_of fe fd k)).
+Proof. exact connect_noent_after_all. Qed.
+Print Assumptions C20_connect_noent_after_all.
+
+(** never stuck; every exit inside connect_mx() has written a report starting with Z; a connection is
+    handed on with the status stream untouched (C04's report discipline carried over) *)
+Theorem C20_connect_total : forall k,
+  pre_connect k ->
+  match fst (loop_of true true k) with
+  | Stuck _ => False
+  | r => rk [] r
+  end.
+Proof. exact connect_phase_c_total. Qed.
+Print Assumptions C20_connect_total.
+
+(** The clause in full — "whenever Qremote gives up, every candidate has been tried" — is FALSE of the
+    code: a first MX that accepts the connection and stays silent ends the attempt with
+    "Z4.4.1 connection to remote server timed out"; the second MX is never contacted (finding F-C20-5). *)
+Theorem C20_temp_failure_refuted : ~ C20_temp_failure_after_all_full.
+Proof. exact temp_failure_refuted. Qed.
+Print Assumptions C20_temp_failure_refuted.
+
+(** what does hold: Qremote gives up with candidates left ONLY when the process exits inside an iteration
+    of the loop or main() refuses the pinned host without TLS ... *)
+Theorem C20_temp_failure_partial : forall k,
+  pre_connect k ->
+  let '(p, atts) := connect_phase_c true true k in
+  ends_without_connection p -> all_tried k atts \/ gave_up_inside k.
+Proof. exact temp_failure_partial. Qed.
+Print Assumptions C20_temp_failure_partial.
+
+(** ... and an iteration exits only for: a failing dup2(); an error other than "closed"/"invalid" on the first
+    line of the greeting (in the modelled network: the server stays silent, -ETIMEDOUT); STARTTLS offered and
+    tls_init() not returning >= 0 (local TLS problem: it reported and returned < 0).  Every other failure
+    (connection refused, closed, invalid or non-220 greeting, EHLO and HELO refused, handshake failure,
+    missing STARTTLS where TLS is required) moves on to the next candidate, by C20_connect_compose. *)
+Theorem C20_connect_exit_classes : forall fe fd k qc tlsa s s',
+  conn_iter_q fe fd k qc tlsa s = Exit s' ->
+  q_dup2 qc = true
+  \/ (exists v s1, netget_first (q_silent qc) (log (EvConn k) (open_conn (q_conn qc) s)) = Ret v s1
+                   /\ (v < 0)%Z /\ v <> neg ST_ECONNRESET /\ v <> neg ST_EINVAL)
+  \/ (exists g s3, starttls_offered g = true
+                   /\ match tls_init (q_conn qc) tlsa s3 with Ret r _ => (r < 0)%Z | Exit _ => True | Stuck _ => False end).
+Proof. exact conn_iter_q_exit. Qed.
+Print Assumptions C20_connect_exit_classes.
 
 (** the port on which main() filters the local addresses is the SMTP port, which is also the
     default of conn.c and of smtproute(); the marks of tryconn are ordered as the proofs need
